@@ -104,6 +104,13 @@ class C10(Check):
             out.append((kind, site or "*"))
         return out
 
+    def explained_by_known(self, case):
+        """The correspondence of this check compares write counts and the
+        error-for-every-k pattern; none of the known findings (memory answers,
+        retries) can change either, so a model/implementation mismatch is
+        never explained by them."""
+        return False
+
     def nontrivial(self, c):
         return any(p.get("n", 0) >= 1 for p in c["obs"]["probes"])
 
